@@ -189,6 +189,13 @@ def _c_block(b):
 
 
 def _content(kind, e, recursive=True):
+    # a picture is only taken of concrete state (the symbolic choices have been made by then):
+    # the walk runs with the tracer suspended
+    with untraced():
+        return _content_c(kind, e, recursive)
+
+
+def _content_c(kind, e, recursive=True):
     if kind == "section":
         return _c_sec(e, recursive)
     return {"block": _c_block, "array": _c_array, "tag": _c_tag, "mtag": _c_mtag, "prop": _c_prop,
@@ -202,6 +209,11 @@ def _renamed(content, name):
 
 
 def _raw_ids(h5obj):
+    with untraced():
+        return _raw_ids_c(h5obj)
+
+
+def _raw_ids_c(h5obj):
     """relative path -> entity_id for the object and everything below it (every object once)"""
     out = {"": _plain(h5obj.attrs["entity_id"])}
     if hasattr(h5obj, "visititems"):
@@ -213,6 +225,11 @@ def _raw_ids(h5obj):
 
 
 def _all_ids(nixfile):
+    with untraced():
+        return _all_ids_c(nixfile)
+
+
+def _all_ids_c(nixfile):
     out = []
 
     def cb(name, o):
@@ -353,7 +370,12 @@ def _ob_copy(where: int, nm: int, keep: bool, children: bool, side: int, mut: in
     with untraced():
         f, g = _build(SRC, DST)
     return _run(f, g, kind, where, nm, keep, children, side, mut,
-                lambda fl: fakeh5.snapshot(fakeh5.FS[SRC if fl is f else DST]))
+                lambda fl: _usnap(SRC if fl is f else DST))
+
+
+def _usnap(path):
+    with untraced():
+        return fakeh5.snapshot(fakeh5.FS[path])
 
 
 WHY = []
